@@ -48,6 +48,23 @@ let run_model (c : case) : (string * jv) list =
              ("model_status", JS (status_str t.t_status));
              ("model_count", JI (int_of_n t.t_count));
              ("model_tags", JL (List.map (fun s -> JS (implode s)) t.t_tags)) ] in
+           let proj =
+             match c.ast_out with
+             | None -> []
+             | Some impl_out ->
+                 let vp = var_prefix cfg in
+                 let keys t = List.sort compare (List.map (fun (a, b) -> (int_of_n a, int_of_n b)) (hook_keys t)) in
+                 let names t = List.sort compare (List.map implode (hook_names t)) in
+                 let dirs t =
+                   let one stmts = (List.length (directives_of stmts),
+                                    (match after_directives stmts with
+                                     | s :: _ -> is_injected_let vp s
+                                     | [] -> false)) in
+                   (one (program_body t),
+                    List.map (fun ((lo, hi), stmts) -> (int_of_n lo, int_of_n hi, one stmts)) (blocks_of t)) in
+                 [ ("proj_sites_equal", JB (keys out = keys impl_out));
+                   ("proj_names_equal", JB (names out = names impl_out));
+                   ("proj_directives_equal", JB (dirs out = dirs impl_out)) ] in
            let cmp =
              match c.ast_out with
              | None -> [ ("model_ast", JS (sexp_string out)) ]
@@ -59,7 +76,7 @@ let run_model (c : case) : (string * jv) list =
                         ("diff_path", JL (List.map (fun i -> JI i) path));
                         ("diff_model", JS (trunc (sexp_string a)));
                         ("diff_impl", JS (trunc (sexp_string b))) ]) in
-           base @ cmp)
+           base @ cmp @ proj)
 
 let () =
   let ic = if Array.length Sys.argv > 1 then open_in Sys.argv.(1) else stdin in
